@@ -2,6 +2,7 @@ import RedactVerif.Props.L2
 import RedactVerif.Proofs.U.Top
 import RedactVerif.Props.FactsClassify
 import RedactVerif.Props.FactsSkelPrinter
+import RedactVerif.Proofs.EqE
 /-
 C17 — a registered error hook renders every error operand, except under Unsafe.
 
@@ -65,5 +66,25 @@ theorem unsafe_error_fully_enveloped (env : Env) (he : EnvOk env) (n : Nat) (p :
     (h : printArg env (n + 1) p (.unsafeW err) verb = .ok q) :
     ∃ l, OnlyLFs l ∧ U.fT q.buf = U.fT p.buf.finalize ++ l :=
   (U.unsafe_operand env he n p err verb hp ho hm hT hv q h).2.2.2.2.2
+
+/-! ### Every operand of a call meets method dispatch with the `erroring` flag clear
+
+`hook_dispatch` and the other theorems above assume `p.erroring = false` (while the flag is set — inside the report of
+a bad verb — `handleMethods` declines by design). That this holds for *every* operand of a call, not only the first, is
+the frame below (Proofs/EqE.lean: all 21 functions return with the flag clear when entered with it clear): a fresh
+printer has it clear, and each operand leaves it clear for the next. Seeded change C17-l (a bad verb on nil that returns
+before clearing the flag) is exactly a violation of this frame. -/
+
+theorem operand_leaves_flag_clear (env : Env) (n : Nat) (p : PP) (v : Val) (verb : Nat) (hp : p.erroring = false) (q : PP)
+    (h : printArg env n p v verb = .ok q) : q.erroring = false :=
+  EqE.printArg_clear env n p v verb hp q h
+
+theorem sprintf_ends_with_flag_clear (env : Env) (f : List Byte) (args : List Val) (q : PP)
+    (h : sprintf env f args = .ok q) : q.erroring = false :=
+  EqE.doPrintf_clear env defaultFuel newPP f args rfl q h
+
+theorem sprint_ends_with_flag_clear (env : Env) (args : List Val) (q : PP)
+    (h : sprint env args = .ok q) : q.erroring = false :=
+  EqE.doPrint_clear env defaultFuel newPP args rfl q h
 
 end Redact
